@@ -100,7 +100,7 @@ def run_case(item):
         _, cfg, depth, keys = item
         st = Stats()
         last = None
-        for ev, obs, run in B.adaptive_programs(aiu, cfg, {}, depth, keys):
+        for ev, obs, run in B.adaptive_programs(aiu, cfg, {}, depth, keys, max_branch=16 if depth <= 4 else 8):
             last = ev
             st.executions += 1
             st.transitions += len(ev) + sum(len(b['yields']) + 1 for b in obs.batches)
@@ -155,8 +155,7 @@ def plan(tier):
             (2, full, 2, ('fwd', 'rev'), (0.0, 0.5), ('class', 'func')),
             (3, full, 2, ('fwd', 'rev', 'rot1'), (0.0, 0.5), ('class', 'func')),
             (4, small, 2, ('fwd', 'rev', 'rot1'), (0.0, 0.5), ('class',)),
-            (5, small, 1, ('fwd', 'rev'), (0.0,), ('class',)),
-            (6, (0.0, BT + EPS), 1, ('fwd', 'rev'), (0.0,), ('class',)),
+            (5, small, 1, ('fwd',), (0.0,), ('class',)),
         ]
         mbs, mcb, Rs = (1, 2, 3, 5), (1, 2, 3), (0.0, 2.0)
     for n, gaps, maxdev, orders, durs, forms in spec:
